@@ -323,6 +323,7 @@ pub fn gen_circuit(r: &mut Prng) -> Circuit {
         let bits = match r.below(8) {
             0..=2 => None,
             3 => Some((*r.pick(&["x", "", "-1", "+7", " 4", "99999999999999999999999"])).to_string()),
+            4 => Some((*r.pick(&["65", "128", "255", "256", "257", "300", "65535", "65536", "4294967296", "18446744073709551615", "18446744073709551616", "007"])).to_string()),
             _ => Some((*r.pick(&["1", "2", "4", "8", "16", "32", "63", "64"])).to_string()),
         };
         let has_default = r.chance(1, 2);
